@@ -154,7 +154,7 @@ type faceM struct {
 
 type inRec struct {
 	superseded  map[uint32]time.Duration // nonces of this face's earlier Interests that a certainly accepted retransmission replaced -> the nonce's first appearance (as known when it was replaced): its recording is promised for one dead-nonce lifetime from then
-	nonceUnsure bool            // a later Interest from this face may or may not have replaced the nonce
+	nonceUnsure bool                     // a later Interest from this face may or may not have replaced the nonce
 	nonce       uint32
 	tokens      [][]byte
 	mustUntil   time.Duration // strictly before this instant the record is certainly held
@@ -910,6 +910,11 @@ func (r *runner) doInterest(op *Op) {
 			if e.face != op.NextHop {
 				r.fail("C02/forwarded-off-chosen-nexthop", "", "Interest %s with consumer-chosen next hop %d emitted on face %d", op.Name, op.NextHop, e.face)
 			}
+			if e.face == op.Face && G.link != defn.AdHoc {
+				// "never back out of the point-to-point face it arrived on" has no exception for a chosen next hop
+				r.ctx.Probe("nexthop-face-id-names-arrival-face")
+				r.fail("C02/sent-back-to-arrival-face", "nexthop-face-id", "Interest %s arrived on point-to-point face %d naming that face as its next hop and was sent back out of it", op.Name, op.Face)
+			}
 		}
 		if len(upstream) > 1 {
 			r.fail("C02/duplicate-forwarding", "nexthop-face-id", "Interest %s emitted %d times", op.Name, len(upstream))
@@ -1055,7 +1060,9 @@ func (r *runner) doInterest(op *Op) {
 			rec.mayUntil = now + life
 		}
 	}
-	if op.NextHop == 0 {
+	{
+		// (also for a consumer-chosen next hop: it is forwarded like any other, with this forwarder's token and an
+		// out-record - until fix 44b9d1c it left with the downstream's own token and without a record)
 		for _, em := range upstream {
 			if len(em.token) != 6 || em.token[0] != 0 || em.token[1] != 0 {
 				r.fail("C01/upstream-token-malformed", "", "upstream copy of %s carries token %x (want 6 bytes: thread id, entry token)", op.Name, em.token)
